@@ -638,3 +638,36 @@ v("c14-db-read-table-raw-name", "C14", "db_model.py",
   "        return self.read_query(f\"SELECT * FROM {table_name}\")")
 v("c14-concat-label-as-source", "C14", SM,
   "{concat_node.id_column: data_algebra.expr_rep.Value(concat_node.a_name)}", "{concat_node.id_column: f\"'{concat_node.a_name}'\"}")
+
+# ---------------------------------------------------------------- C15
+v("c15-new-pandas-scratch-column", "C15", PB,
+  "        res = self.clean_copy(res.loc[selection, :])\n        return res",
+  "        res[\"_da_keep_row\"] = selection\n        res = self.clean_copy(res.loc[res[\"_da_keep_row\"], :])\n        del res[\"_da_keep_row\"]\n        return res")
+v("c15-project-standin-renamed", "C15", PB,
+  "        res[\"_data_table_temp_col\"] = 1\n", "        res[\"_da_one\"] = 1\n")
+v("c15-twin-project-standin-guarded", "C15", PB,
+  "        res[\"_data_table_temp_col\"] = 1\n",
+  "        if \"_data_table_temp_col\" in res.columns:\n            raise ValueError(\"column name _data_table_temp_col is reserved\")\n        res[\"_data_table_temp_col\"] = 1\n", expect="silent")
+v("c15-join-cleanup-by-endswith", "C15", PB,
+  "                res = res.drop(c + \"_tmp_right_col\", axis=1, inplace=False)\n",
+  "                res = res.drop([x for x in res.columns if x.endswith(\"_tmp_right_col\")], axis=1, inplace=False)\n")
+v("c15-polars-new-alias", "C15", "polars_model.py",
+  "                [_build_lit(op.a_name).alias(op.id_column)]", "                [_build_lit(op.a_name).alias(op.id_column), _build_lit(0).alias(\"_da_side\")]")
+v("c15-sql-new-view-name", "C15", SM,
+  "        view_name = \"select_rows_\" + str(temp_id_source[0])", "        view_name = \"filter_\" + str(temp_id_source[0])")
+v("c15-polars-suffixes-overlap", "C15", "polars_model.py",
+  "                suffix=\"_da_left_tmp\",", "                suffix=\"_right_tmp\",")
+v("c15-twin-unrelated-constant-key", "C15", PB,
+  "        res = self.clean_copy(res.loc[selection, :])\n        return res",
+  "        info = {}\n        info[\"rows\"] = res.shape[0]\n        res = self.clean_copy(res.loc[selection, :])\n        return res", expect="silent")
+
+# ---------------------------------------------------------------- C08 (twin removal on every iteration)
+v("c08-twin-kept-when-left-has-no-nulls", "C08", PB,
+  "                is_null = res[c].isnull()\n                res.loc[is_null, c] = res.loc[is_null, c + \"_tmp_right_col\"]\n                res = res.drop(c + \"_tmp_right_col\", axis=1, inplace=False)\n",
+  "                is_null = res[c].isnull()\n                if is_null.any():\n                    res.loc[is_null, c] = res.loc[is_null, c + \"_tmp_right_col\"]\n                    res = res.drop(c + \"_tmp_right_col\", axis=1, inplace=False)\n")
+v("c08-twin-twin-drop-hoisted-local", "C08", PB,
+  "                is_null = res[c].isnull()\n                res.loc[is_null, c] = res.loc[is_null, c + \"_tmp_right_col\"]\n                res = res.drop(c + \"_tmp_right_col\", axis=1, inplace=False)\n",
+  "                right_c = c + \"_tmp_right_col\"\n                is_null = res[c].isnull()\n                if is_null.any():\n                    res.loc[is_null, c] = res.loc[is_null, right_c]\n                res = res.drop(right_c, axis=1, inplace=False)\n", expect="silent")
+v("c08-twin-loop-continue-form", "C08", PB,
+  "            if c not in merged_key_cols:\n                is_null = res[c].isnull()\n                res.loc[is_null, c] = res.loc[is_null, c + \"_tmp_right_col\"]\n                res = res.drop(c + \"_tmp_right_col\", axis=1, inplace=False)\n",
+  "            if c in merged_key_cols:\n                continue\n            is_null = res[c].isnull()\n            res.loc[is_null, c] = res.loc[is_null, c + \"_tmp_right_col\"]\n            res = res.drop(c + \"_tmp_right_col\", axis=1, inplace=False)\n", expect="silent")
